@@ -12,6 +12,11 @@ MUTANTS = [
     ('c17-pending-payload-not-reset', 'C17', W, "                    self._pending_payload = bytearray()\n                    msgs.append(msg)",
      "                    msgs.append(msg)"),
     ('c17-fin-ignored', 'C17', W, "            if final:\n                if opcode < 8:", "            if True:\n                if opcode < 8:"),
+    # -- reverts of repairs -----------------------------------------------------------------------------------
+    ('c17-revert-ctor-data-decoded-at-registration', 'C17', W,
+     "        self._initial_data = bytearray(data)\n",
+     "        self._initial_data = bytearray()\n        for message in self._parse_messages(bytearray(data)):\n            self.fire(read(self._sock, message) if self._sock is not None else read(message))\n"),
+    ('c17-ctor-data-dropped', 'C17', W, "        self._initial_data = bytearray(data)\n", "        self._initial_data = bytearray()\n"),
     # -- other realistic breaks ------------------------------------------------------------------------------
     ('c17-fragments-not-combined', 'C17', W, "            msg = self._pending_payload + msg\n", "            msg = msg\n"),
     ('c17-continued-text-not-decoded', 'C17', W, "if opcode == 1 or (opcode == 0 and self._pending_type == 1):", "if opcode == 1:"),
